@@ -577,6 +577,8 @@ def _probe(probes, states, asked, cid, rid, defined_ids, case):
             if d["op"] == "define" and d["cls"]["id"] == cid:
                 if any(b in seen_classes for b in d["cls"]["bases"]):
                     probes["defined-subclass-of-primed-class"] += 1
+                    if "cutter" in d["cls"].get("attrs", {}):
+                        probes["recut-subclass-of-primed-class"] += 1
     if "@" in rid:
         probes["rotated-record"] += 1
     if rid.startswith("syn:"):
@@ -844,7 +846,22 @@ def gen_case(spec):
                 for r_ in hints[spec_d["id"]]:
                     if r_ not in recs:
                         recs.append(r_)
+                parent_ = spec_d.pop("prime_parent", None)
                 defined.append(spec_d)
+                if parent_ and hints[spec_d["id"]] and g.random() < 0.7:
+                    # parent asked first (possibly before the definition), then the re-targeted subclass, same plasmid
+                    r_ = g.choice(hints[spec_d["id"]])
+                    pre = [("new", parent_, r_), ("call", "is_valid")]
+                    post = [("new", spec_d["id"], r_), ("call", "is_valid"), ("call", g.choice(["overhang_start", "target", "is_valid"]))]
+                    if g.random() < 0.5:
+                        nh[client] += 1
+                        cur_ = "c%dh%d" % (client, nh[client])
+                        add(client, {"op": "new", "h": cur_, "cls": parent_, "rec": r_})
+                        add(client, {"op": "call", "h": cur_, "method": "is_valid"})
+                        hs.append((cur_, parent_, r_))
+                        motifs.append(post)
+                    else:
+                        motifs.append(pre + post)
                 add(client, {"op": "define", "cls": spec_d})
         else:
             vecs = [h for h, c, _ in hs if _is_vectorish(c, defined)]
@@ -875,7 +892,7 @@ def _gen_define(g, pool, defined, name_pool):
     class distinguishable from its relatives and namesakes."""
     cmeta = W["cmeta"]
     acc = W["accepts"] or {}
-    kind = g.choice(["sig-under-kit-base", "subclass-of-concrete", "override-structure", "same-name", "same-name", "cross-role"])
+    kind = g.choice(["sig-under-kit-base", "subclass-of-concrete", "override-structure", "same-name", "same-name", "cross-role", "other-cutter"])
     parts = [c for c in pool if c in cmeta and cmeta[c]["kind"] == "kit" and W["ancestors"][c] and any(a in W["abstract_bases"] for a in W["ancestors"][c])]
     if not parts:
         return None
@@ -929,6 +946,19 @@ def _gen_define(g, pool, defined, name_pool):
         return done({"id": did, "name": "UserPart%d" % len(defined), "bases": bases, "attrs": {"signature": rnd_sig()}})
     if kind == "subclass-of-concrete":
         return done({"id": did, "name": "UserSub%d" % len(defined), "bases": [model], "attrs": {"signature": rnd_sig()}})
+    if kind == "other-cutter":
+        # a concrete part re-targeted to another type IIS enzyme with the same overhang length: everything the
+        # parent derives from its cutter (recognition sites, spacing) must be recomputed for the subclass
+        alts = [cu for cu in ("BsaI", "BsmBI", "BpiI", "SapI", "BbsI", "Esp3I") if cu != cutter.__name__ and hasattr(__import__("Bio.Restriction").Restriction, cu)
+                and dna.geometry(cu)["ov"] == k and dna.geometry(cu)["site"] != cutter.site]
+        if not alts:
+            return None
+        attrs = {"cutter": g.choice(alts)}
+        if g.random() < 0.3:
+            attrs["signature"] = rnd_sig()
+        spec = done({"id": did, "name": "UserRecut%d" % len(defined), "bases": [model], "attrs": attrs})
+        spec["prime_parent"] = model
+        return spec
     if kind == "override-structure":
         other = g.choice(parts)
         lit = structure_literal(other)
@@ -1022,7 +1052,7 @@ def catalogue_summary(case):
     return {"classes": [x["id"] for x in c["classes"]][:12], "records": c["records"][:8], "synthetic": len(c["synthetic"])}
 
 
-EXPECTED_PROBES = {"C06": ["drop-handle", "fresh-record-object", "ancestor-before-descendant+separating", "descendant-before-ancestor+separating", "sibling-before-sibling+separating", "characterize-after-define", "query-defined-class", "rotated-record", "synthetic-record"]}
+EXPECTED_PROBES = {"C06": ["drop-handle", "fresh-record-object", "ancestor-before-descendant+separating", "descendant-before-ancestor+separating", "sibling-before-sibling+separating", "characterize-after-define", "query-defined-class", "recut-subclass-of-primed-class", "rotated-record", "synthetic-record"]}
 
 
 def post_checks(tier, verif_seed):
